@@ -68,8 +68,11 @@ def main():
         shutil.rmtree(ev, ignore_errors=True)
         sh("git -C /repo worktree prune")
     if "--record" in args:
-        res2 = dict(res); res2["seed"] = os.path.relpath(d, VERIF)
-        json.dump(res2, open(os.path.join(d, "verified.json"), "w"), indent=1)
+        vf = os.path.join(d, "verified.json")
+        res2 = json.load(open(vf)) if os.path.exists(vf) else {}
+        res2.update(res)
+        res2["seed"] = os.path.relpath(d, VERIF)
+        json.dump(res2, open(vf, "w"), indent=1)
     print(json.dumps(res, indent=1))
 
 
